@@ -418,7 +418,7 @@ def run(ctx):
         frontier = nxt
         ctx.log("depth", d + 1, "new states", len(nxt))
     # ---- the schedule dimension: the networking thread handles a delivery while the miner thread publishes a found block
-    thr = thrscen.run(ctx, 'MN', 1 if ctx.quick else 2, only=['C09:'])
+    thr = thrscen.run(ctx, 'MN', 1 if ctx.quick else 2, names=['found-vs-valid-sibling-delivery', 'found-vs-invalid-delivery', 'found-vs-transaction-delivery'], only=['C09:'])
     ctx.cov['thread_schedules'] = thr
     ctx.cov.update({
         'states': stats['states'], 'transitions': stats['transitions'], 'traces_validated_against_impl': stats['transitions'],
